@@ -41,7 +41,7 @@ def mkSigner (spec : String) : Option Signer :=
     (match parseIntStr a with
      | none => none
      | some alg =>
-       if kind = "T" then
+       if kind = "T" || kind = "R" then
          (match arg.toNat? with
           | some k => some { alg := alg, sign := fun tbs => .ok (1 :: UInt8.ofNat k :: tbs) }
           | none => none)
@@ -56,7 +56,7 @@ def mkVerifier (spec : String) : Option Verifier :=
     (match parseIntStr a with
      | none => none
      | some alg =>
-       if kind = "T" then
+       if kind = "T" || kind = "R" then
          (match arg.toNat? with
           | some k => some { alg := alg, verify := fun tbs sig =>
               if sig = 1 :: UInt8.ofNat k :: tbs then .ok () else .err .verification }
